@@ -32,6 +32,13 @@ pub fn explore(ex: &Ex) {
     bodies.push(gen::arr(vec![gen::b(b""), gen::map(vec![]), gen::u(1), gen::b(b"")]));
     bodies.push(gen::arr(vec![]));
     bodies.push(gen::map(vec![]));
+    // lists whose elements are related (same key id, equal elements): both entry points agree
+    bodies.push(gen::arr(vec![gen::b(b""), gen::map(vec![]), gen::b(b"p"), gen::arr(vec![gen::sig_valid2(), gen::sig_valid(), gen::sig_valid2()])]));
+    {
+        let r = gen::arr(vec![gen::b(b""), gen::map(vec![(gen::u(4), gen::b(b"k"))]), gen::b(b"c")]);
+        bodies.push(gen::arr(vec![gen::b(b""), gen::map(vec![]), gen::b(b"c"), gen::arr(vec![r.clone(), r.clone()])]));
+        bodies.push(gen::arr(vec![gen::b(b""), gen::map(vec![]), gen::b(b"p"), gen::b(b"t"), gen::arr(vec![r.clone(), gen::arr(vec![gen::b(b""), gen::map(vec![]), gen::b(b"x")]), r])]));
+    }
     bodies.push(gen::b(b"\x84\x40\xa0\xf6\x40"));
     // an opaque header value that itself carries one of the registered tags (say, an embedded
     // tagged COSE message): only the tag on the structure itself is the structure's tag
